@@ -9,10 +9,16 @@ mod report;
 mod term;
 mod util;
 
+mod barops;
 mod c01;
+mod c06;
+mod c07;
+mod c16;
 mod c10;
+mod c11;
 mod c12;
 mod c13;
+mod c14;
 mod c15;
 mod render;
 mod multi;
@@ -61,10 +67,15 @@ fn checks() -> Vec<Check> {
         Check { id: "C02", run: mp::c02_run, meta: mp::c02_meta, replay: mp::c02_replay },
         Check { id: "C03", run: mp::c03_run, meta: mp::c03_meta, replay: mp::c03_replay },
         Check { id: "C04", run: mp::c04_run, meta: mp::c04_meta, replay: mp::c04_replay },
+        Check { id: "C06", run: c06::run, meta: c06::meta, replay: c06::replay },
+        Check { id: "C07", run: c07::run, meta: c07::meta, replay: c07::replay },
         Check { id: "C10", run: c10::run, meta: c10::meta, replay: c10::replay },
+        Check { id: "C11", run: c11::run, meta: c11::meta, replay: c11::replay },
         Check { id: "C12", run: c12::run, meta: c12::meta, replay: c12::replay },
         Check { id: "C13", run: c13::run, meta: c13::meta, replay: c13::replay },
+        Check { id: "C14", run: c14::run, meta: c14::meta, replay: c14::replay },
         Check { id: "C15", run: c15::run, meta: c15::meta, replay: c15::replay },
+        Check { id: "C16", run: c16::run, meta: c16::meta, replay: c16::replay },
         Check { id: "C19", run: mp::c19_run, meta: mp::c19_meta, replay: mp::c19_replay },
     ]
 }
